@@ -115,33 +115,45 @@ Qed.
 Lemma unle_le_small k n : n < 2 ^ (8 * N.of_nat k) -> unle (le k n) = n.
 Proof. intro H. rewrite unle_le. now apply N.mod_small. Qed.
 
-(* list helpers on N indices *)
-Definition take (n : N) (bs : bytes) : bytes := firstn (N.to_nat n) bs.
-Definition drop (n : N) (bs : bytes) : bytes := skipn (N.to_nat n) bs.
+(* list helpers on N indices.  The guards keep [N.to_nat] away from data-dependent huge numbers when the
+   model is executed (a 2^64 offset read from a hostile archive must not be converted to unary). *)
+Definition take (n : N) (bs : bytes) : bytes := if len bs <=? n then bs else firstn (N.to_nat n) bs.
+Definition drop (n : N) (bs : bytes) : bytes := if len bs <=? n then [] else skipn (N.to_nat n) bs.
+
+Lemma take_firstn n bs : take n bs = firstn (N.to_nat n) bs.
+Proof.
+  unfold take, len. destruct (N.of_nat (length bs) <=? n) eqn:E; [|reflexivity].
+  symmetry. apply firstn_all2. lia.
+Qed.
+Lemma drop_skipn n bs : drop n bs = skipn (N.to_nat n) bs.
+Proof.
+  unfold drop, len. destruct (N.of_nat (length bs) <=? n) eqn:E; [|reflexivity].
+  symmetry. apply skipn_all2. lia.
+Qed.
 
 Lemma len_app a b : len (a ++ b) = len a + len b.
 Proof. unfold len. rewrite app_length. lia. Qed.
 
 Lemma take_app_exact a b : take (len a) (a ++ b) = a.
 Proof.
-  unfold take, len. rewrite Nnat.Nat2N.id.
+  rewrite take_firstn. unfold len. rewrite Nnat.Nat2N.id.
   rewrite firstn_app, Nat.sub_diag, firstn_all. cbn. now rewrite app_nil_r.
 Qed.
 
 Lemma drop_app_exact a b : drop (len a) (a ++ b) = b.
 Proof.
-  unfold drop, len. rewrite Nnat.Nat2N.id.
+  rewrite drop_skipn. unfold len. rewrite Nnat.Nat2N.id.
   rewrite skipn_app, Nat.sub_diag, skipn_all. reflexivity.
 Qed.
 
 Lemma len_take n bs : len (take n bs) = N.min n (len bs).
-Proof. unfold len, take. rewrite firstn_length. lia. Qed.
+Proof. rewrite take_firstn. unfold len. rewrite firstn_length. lia. Qed.
 
 Lemma len_drop n bs : len (drop n bs) = len bs - n.
-Proof. unfold len, drop. rewrite skipn_length. lia. Qed.
+Proof. rewrite drop_skipn. unfold len. rewrite skipn_length. lia. Qed.
 
 Lemma take_drop n bs : take n bs ++ drop n bs = bs.
-Proof. apply firstn_skipn. Qed.
+Proof. rewrite take_firstn, drop_skipn. apply firstn_skipn. Qed.
 
 Definition byte_eqb := Byte.eqb.
 Fixpoint bytes_eqb (a b : bytes) : bool :=
@@ -158,3 +170,11 @@ Proof.
   - apply andb_true_iff in H as [H1 H2]. apply Byte.byte_dec_bl in H1. apply IH in H2. now subst.
   - injection H as -> ->. apply andb_true_iff; split; [now apply Byte.byte_dec_lb | now apply IH].
 Qed.
+
+Fixpoint bytes_ltb (a b : bytes) : bool :=
+  match a, b with
+  | [], [] => false
+  | [], _ => true
+  | _, [] => false
+  | x :: a', y :: b' => if b2n x <? b2n y then true else if b2n y <? b2n x then false else bytes_ltb a' b'
+  end.
